@@ -810,15 +810,21 @@ static var Zip_Iter_Init(var self) {
   return values;
 }
 
+static size_t Zip_Len(var self);
+
 static var Zip_Iter_Last(var self) {
   struct Zip* z = self;
   struct Tuple* values = z->values;
   struct Tuple* iters = z->iters;
   size_t num = len(iters);
   if (num is 0) { return Terminal; }
+  size_t mlen = Zip_Len(self);
   for (size_t i = 0; i < num; i++) {
     var last = iter_last(iters->items[i]);
     if (last is Terminal) { return Terminal; }
+    for (size_t j = mlen; j < len(iters->items[i]); j++) {
+      last = iter_prev(iters->items[i], last);
+    }
     values->items[i] = last;
   }
   return values;
